@@ -28,7 +28,6 @@ from pathlib import Path
 from typing import TYPE_CHECKING, Any, NoReturn
 
 import click
-import yaml
 from loguru import logger
 
 from src.cli.linters.shared import (
@@ -43,6 +42,7 @@ from src.cli.utils import (
     format_option,
     get_project_root_from_context,
     handle_linting_error,
+    load_config_file,
     parallel_option,
     setup_base_orchestrator,
     validate_paths_exist,
@@ -75,14 +75,9 @@ def _load_dry_config_file(orchestrator: "Orchestrator", config_file: str, verbos
         click.echo(f"Error: Config file not found: {config_file}", err=True)
         sys.exit(2)
 
-    with config_path.open("r", encoding="utf-8") as f:
-        config: dict[str, Any] = yaml.safe_load(f)
-
-    try:
-        dry_config = config["dry"]
-    except KeyError:
-        return  # No DRY config in file
-    orchestrator.config.update({"dry": dry_config})
+    # Same loader as every other linter command: the file replaces the discovered
+    # configuration (keys normalized, top-level ignore list included)
+    load_config_file(orchestrator, config_file, verbose)
     logger.debug(f"Loaded DRY config from {config_file}")
 
 
